@@ -246,3 +246,170 @@ def run(m):
     v = r["violations"]
     return {"failing": bool(v), "witness": v[0]["witness"] if v else "inheritance", "call": v[0]["source"] if v else "chain sweep", "result": v[0]["got"] if v else "ok"}
 '''
+
+
+# ---- a block body renders in copy(block_scope=True): "variables and loops inside blocks" --
+# ---- the block sees its own namespace (the `block` drop) first and then the LIVE scope of the
+# ---- template being rendered, including namespaces pushed by enclosing for/with/include tags
+
+REPLAY_BLOCK_SCOPE = r'''
+def run(m):
+    import asyncio
+    from liquid import Environment, DictLoader
+    env = Environment(extra=True, loader=DictLoader({
+        "base": "{% assign a = 'A' %}{% for i in (1..2) %}[{% block item %}{{ i }}{{ a }}{{ g }}{{ forloop.index }}{% endblock %}]{% endfor %}",
+        "child": "{% extends 'base' %}",
+        "child2": "{% extends 'base' %}{% block item %}<{{ i }}{{ block.super }}>{% endblock %}"}))
+    bad = []
+    for name, want in (("child", "[1AG1][2AG2]"), ("child2", "[<11AG1>][<22AG2>]")):
+        t = env.get_template(name)
+        for got in (t.render(g="G"), asyncio.run(t.render_async(g="G"))):
+            if got != want:
+                bad.append((name, got, want))
+    return {"violated": bool(bad), "observed": bad[:3], "witness": "block-does-not-see-the-enclosing-scope"}
+'''
+
+
+@contract(CTX + ".copy", prop="C18", name="copy[block scope: the block's namespace, then the live scope of the enclosing template]")
+def copy_block_scope_chain(c):
+    env = mk_env(c)
+    ctx = mk_ctx(c, env)
+    f0 = c.st.deref(ctx).fields
+    # namespaces pushed by enclosing tags (a for loop, an include's arguments)
+    ns1, ns2 = c.dict("loop_namespace"), c.dict("include_arguments")
+    dq = c.st.deref(c.st.deref(f0["scope"]).fields["_maps"])
+    dq.items = [ns2, ns1] + dq.items
+    live = list(dq.items)
+    namespace = c.dict("block_namespace")
+    c.call(namespace, self_val=ctx, carry_loop_iterations=const(True), block_scope=const(True))
+
+    def post(r):
+        f = r.st.deref(r.value).fields
+        g = r.st.deref(f["globals"])
+        if not (isinstance(g, HObj) and g.cls[1] == "ReadOnlyChainMap"):
+            return z3.BoolVal(False)
+        maps = r.st.deref(g.fields["_maps"]).items
+        # [block namespace, the caller's scope object itself (live: later pushes are seen too)]
+        ok = (len(maps) == 2 and maps[0] == namespace and maps[1] == f0["scope"]) or maps == [namespace, *live]   # the scope object, or its maps in order
+        still = r.st.deref(r.st.deref(f0["scope"]).fields["_maps"]).items == live
+        return z3.BoolVal(bool(ok and still and f["parent_context"] == ctx))
+    c.ensures("the-blocks-globals-are-its-namespace-chained-to-the-callers-live-scope", post)
+    c.raises("ContextDepthError")
+    c.replay("code", code=REPLAY_BLOCK_SCOPE)
+
+
+# ---- every block and extends node of a template is found, wherever it is nested: the walk
+# ---- follows children() of EVERY node (blank or not: capture/macro bodies are blank by
+# ---- construction but may hold blocks) -- otherwise block.super and the duplicate check miss it
+
+EXT = "liquid.extra.tags.extends_tag"
+
+REPLAY_FIND = r'''
+def run(m):
+    import asyncio
+    from liquid import Environment, DictLoader
+    from liquid.exceptions import LiquidError
+    env = Environment(extra=True, loader=DictLoader({
+        "base": "{% capture c %}{% block b %}base{% endblock %}{% endcapture %}[{{ c }}]",
+        "child": "{% extends 'base' %}{% block b %}child+{{ block.super }}{% endblock %}",
+        "dup": "{% capture c %}{% block b %}1{% endblock %}{% endcapture %}{% block b %}2{% endblock %}"}))
+    out = []
+    for a in (False, True):
+        t = env.get_template("child")
+        out.append(asyncio.run(t.render_async()) if a else t.render())
+        try:
+            d = env.get_template("dup")
+            out.append(asyncio.run(d.render_async()) if a else d.render())
+        except LiquidError as e:
+            out.append(type(e).__name__)
+    return {"violated": out != ["[child+base]", "TemplateInheritanceError"] * 2, "observed": out, "witness": "block-nested-in-a-blank-node-not-found"}
+'''
+
+
+@contract(EXT + ":_find_inheritance_nodes", prop="C18", name="_find_inheritance_nodes[blocks and extends nodes nested under arbitrary (also blank) nodes are all found, in document order]")
+def find_nodes(c):
+    env = mk_env(c)
+    ctx = mk_ctx(c, env)
+    kids = {}
+
+    def node(cls, name, children, **f):
+        o = c.obj(cls, name, token=NONE, blank=c.bool(name + "_blank"), **f)
+        kids[o.addr] = children
+        return o
+    b_inner = node(EXT + ":BlockNode", "inner_block", [])
+    b_deep = node(EXT + ":BlockNode", "block_under_two_nodes", [b_inner])
+    ext = node(EXT + ":ExtendsNode", "extends", [])
+    wrap2 = node("liquid.ast:Node", "capture_like", [b_deep])
+    wrap1 = node("liquid.ast:Node", "if_like", [wrap2, ext])
+    b_top = node(EXT + ":BlockNode", "top_block", [])
+    plain = node("liquid.ast:Node", "leaf", [])
+    tmpl = c.obj(TEMPLATE, "template", env=env, nodes=c.st.alloc(HList(items=[plain, wrap1, b_top])))
+
+    def children(eng, st, a, k):
+        st.log.append(("children", a[0]))
+        return [(st, st.alloc(HList(items=list(kids[a[0].addr]))))]
+    for cls in ("liquid.ast:Node.children", EXT + ":BlockNode.children", EXT + ":ExtendsNode.children"):
+        c.summary(cls, children)
+    c.call(tmpl, ctx)
+
+    def post(r):
+        if not isinstance(r.value, VTuple) or len(r.value.items) != 2:
+            return z3.BoolVal(False)
+        exts = r.engine.concrete_items(r.st, r.value.items[0])
+        blocks = r.engine.concrete_items(r.st, r.value.items[1])
+        return z3.BoolVal(exts == [ext] and blocks == [b_deep, b_inner, b_top])
+    c.ensures("all-three-blocks-and-the-extends-node-are-returned-in-document-order", post)
+    c.raises()
+    c.assume_note("children() of each node is an arbitrary list here (the nodes' own children() methods are C19's obligations); blank flags are arbitrary")
+    c.replay("code", code=REPLAY_FIND)
+
+
+# ---- the extends tag (both twins): the base template is rendered in this context with the block
+# ---- stacks built for THIS chain, and the stacks are gone afterwards, so the next chain resolved
+# ---- in the same context (a second include of an extending template) starts from nothing
+
+REPLAY_TWO_CHAINS = r'''
+def run(m):
+    import asyncio
+    from liquid import Environment, DictLoader
+    env = Environment(extra=True, loader=DictLoader({
+        "base": "<{% block b %}base{% endblock %}>", "news": "{% extends 'base' %}{% block b %}news{% endblock %}",
+        "sport": "{% extends 'base' %}{% block b %}sport{% endblock %}", "plain": "{% extends 'base' %}"}))
+    t = env.from_string("{% include 'news' %}|{% include 'sport' %}|{% include 'plain' %}")
+    out = [t.render(), asyncio.run(t.render_async())]
+    return {"violated": out != ["<news>|<sport>|<base>"] * 2, "observed": out, "witness": "block-stacks-survive-the-chain"}
+'''
+
+for _sfx in ("", "_async"):
+    def _mkext(sfx):
+        @contract(EXT + ":ExtendsNode.render_to_output" + sfx, prop="C18", name=f"ExtendsNode.render_to_output{sfx}[renders the base of this chain, then leaves no block stacks behind]")
+        def en(c):
+            env = mk_env(c)
+            ctx = mk_ctx(c, env)
+            base = c.obj(TEMPLATE, "base_template", env=env, name=c.str("base_name"))
+            self = c.obj(EXT + ":ExtendsNode", "extends", token=NONE, name=c.str("parent_name"))
+
+            def build(eng, st, a, k):
+                st.log.append(("build", a[0], a[1]))
+                return [(st, base)]
+            c.summary(EXT + ":_build_block_stacks" + sfx, build)
+
+            def render(eng, st, a, k):
+                ns = st.deref(st.deref(st.deref(a[1]).fields["tag_namespace"]).items["extends"]) if a[1] == ctx else None
+                st.log.append(("render", a[0], a[1]))
+                return [(st, VInt(z3.Int("chars")))]
+            c.summary(TEMPLATE + ".render_with_context" + sfx, render)
+            c.call(ctx, c.obj("io:StringIO", "buffer", __text__=c.str("out")), self_val=self)
+            c.raises("StopRender")
+            c.ensures("never-returns-normally(the-rest-of-a-child-template-is-not-rendered)", lambda r: z3.BoolVal(False))
+
+            def after(r):
+                log = [e for e in r.st.log if e[0] in ("build", "render")]
+                ok_calls = [e[0] for e in log] == ["build", "render"] and log[0][1] == ctx and log[1][1] == base and log[1][2] == ctx
+                ns = r.st.deref(r.st.deref(r.st.deref(ctx).fields["tag_namespace"]).items["extends"])
+                empty = isinstance(ns, HDict) and not ns.items and ns.present is None
+                return z3.BoolVal(bool(ok_calls and empty))
+            c.ensures_exc("base-of-this-chain-rendered-in-this-context-and-block-stacks-cleared", after)
+            c.assume_note("_build_block_stacks and render_with_context are callees (their own obligations: extends-cycle guard C09, block resolution above)")
+            c.replay("code", code=REPLAY_TWO_CHAINS)
+    _mkext(_sfx)
